@@ -442,7 +442,12 @@ def r18_3(ctx: Ctx, E: Effects, rule="R18.3"):
             av_ = norm(l_.target.elts[0]) if isinstance(l_.target, ast.Tuple) else norm(l_.target)
             tgts = sorted(norm(s_.targets[0]) for s_ in l_.body if isinstance(s_, ast.Assign))
             al18 = {norm(s_.targets[0]): norm(s_.value) for s_ in l_.body if isinstance(s_, ast.Assign) and isinstance(s_.targets[0], ast.Name)}
-            tgts = sorted(norm(s_.targets[0]) for s_ in l_.body if isinstance(s_, ast.Assign) and not isinstance(s_.targets[0], ast.Name))
+            def _t18(t_):
+                # `atom = <loop variable>` inside the loop: a write through `atom` is a write through the loop variable
+                if isinstance(t_, ast.Attribute) and isinstance(t_.value, ast.Name) and al18.get(t_.value.id) == av_:
+                    return "%s.%s" % (av_, t_.attr)
+                return norm(t_)
+            tgts = sorted(_t18(s_.targets[0]) for s_ in l_.body if isinstance(s_, ast.Assign) and not isinstance(s_.targets[0], ast.Name))
             vals = {al18.get(norm(s_.value), norm(s_.value)) for s_ in l_.body if isinstance(s_, ast.Assign) and not isinstance(s_.targets[0], ast.Name)}
             if tgts == ["%s.gro_resid" % av_, "%s.top_resid" % av_] and len(vals) == 1:
                 v_ = list(vals)[0]
